@@ -4,9 +4,10 @@ package smtp
 // are run on every short string over an alphabet of syntactically significant characters, and the
 // outcome (backend called with which mailbox / refused) is compared with an independent reference
 // for the Path grammar of RFC 5321 section 4.1.2, written here from the RFC. Inputs are classified
-// valid / definitely invalid / unspecified; the last class is not judged (paths without angle
-// brackets, quoted local parts, address literals: forms on which implementations legitimately differ
-// or whose value representation the property does not fix).
+// valid / definitely invalid / quoted / unspecified; the last class is not judged (paths without angle
+// brackets, quoted pairs, address literals: forms on which implementations legitimately differ or whose
+// value representation the property does not fix). A plain quoted-string local part may be refused or
+// accepted, but when it is accepted its content (with or without the quotes) and domain must arrive.
 // Every way of disagreeing is a class of its own: one BOUNDED line per class, so that a recorded
 // finding names a class and a new kind of disagreement is still reported.
 
@@ -92,8 +93,19 @@ func refDotString(l string) string {
 
 // refPath classifies s as a Path: ("valid", mailbox), ("invalid", reason) or ("unspecified", "").
 func refPath(s string) (string, string) {
-	if strings.ContainsAny(s, "\"\\[]") {
-		return "unspecified", "" // quoted strings, quoted pairs, address literals
+	if strings.ContainsAny(s, "\\[]") {
+		return "unspecified", "" // quoted pairs, address literals
+	}
+	if strings.Contains(s, "\"") {
+		// Quoted-string local part without quoted pairs and blanks, <"q"@domain>: whether it is accepted and in
+		// which representation it is handed over is not fixed, but if it is accepted the content must arrive.
+		if strings.HasPrefix(s, "<\"") && strings.HasSuffix(s, ">") && !strings.Contains(s, " ") {
+			rest := s[2 : len(s)-1]
+			if i := strings.IndexByte(rest, '"'); i >= 0 && strings.HasPrefix(rest[i+1:], "@") && !strings.Contains(rest[i+1:], "\"") && !strings.ContainsAny(rest[i+2:], "<>@") && refDomain(rest[i+2:]) == "" {
+				return "quoted", rest[:i] + "@" + rest[i+2:]
+			}
+		}
+		return "unspecified", ""
 	}
 	if !strings.HasPrefix(s, "<") {
 		return "unspecified", "" // no angle brackets: a common leniency, not judged
@@ -215,6 +227,10 @@ func TestBoundedC11Path(t *testing.T) {
 			called, got, reply = run(cmd, s, suffix)
 			if !called || got != info {
 				disagree(cmd+":valid-path-with-parameter", s+suffix, fmt.Sprintf("called=%v mailbox=%q reply=%q", called, got, reply))
+			}
+		case "quoted":
+			if called && got != info && got != "\""+info[:strings.LastIndex(info, "@")]+"\""+info[strings.LastIndex(info, "@"):] {
+				disagree(cmd+":quoted-local-part-content-changed", s, fmt.Sprintf("backend received %q for a quoted local part whose content and domain are %q", got, info))
 			}
 		case "invalid":
 			if called {
